@@ -33,7 +33,7 @@ ASSUMPTIONS = [
     "positional and keyword call forms may or may not share an entry (unspecified)",
 ]
 BOUNDS = {
-    "quick": {"L": 6, "L_sync": 5, "L_method": 5, "limits": [1, 2, 3], "note": "+1 for the sync variant without expiration"},
+    "quick": {"L": 5, "L_sync": 5, "L_method": 4, "limits": [1, 2, 3], "note": "+1 for the sync variant without expiration; histories of every length over the lean alphabets by the fixpoint searches"},
     "thorough": {"L": 7, "L_sync": 6, "L_method": 6, "limits": [1, 2, 3], "note": "+1 for the sync variant without expiration"},
 }
 EXHAUSTIVE = {"quick": True, "thorough": True}
@@ -86,6 +86,18 @@ def programs(tier: str):
         yield {"variant": variant, "limit": 1, "expiration": None, "L": 4, "attrs": True}
         yield {"variant": variant, "limit": 2, "expiration": 2, "L": 4, "attrs": True}
     yield from fix_programs(tier)
+    # FINE time scales: expirations far below / off the millisecond grid (1/2048 s, 3/1024 s) and a
+    # huge one (2**20 s), clock steps of half / twice the expiration - exact dyadic values
+    for variant in ("sync", "async", "msync"):
+        for expiration in (1 / 2048, 3 / 1024, 1.0 + 1 / 1024, float(2**20)):
+            for limit in (1, 2):
+                if variant == "msync" and (limit == 2 or expiration > 1) and tier == "quick":
+                    continue
+                yield {"variant": variant, "limit": limit, "expiration": expiration, "fix": True, "fine": True, "deadline_s": 1500, "validate": "first"}
+    for variant in ("sync", "async"):
+        for limit in (1, 3):
+            yield {"variant": variant, "limit": limit, "expiration": None, "L": 5 if tier == "quick" else 6, "kwall": True}
+        yield {"variant": variant, "limit": 2, "expiration": 2, "L": 4 if tier == "quick" else 5, "kwall": True}
     # long histories: warm-up cycles x exhaustive continuations
     for variant in ("sync", "async", "msync", "masync"):
         for limit, expiration in ((1, 2), (2, 2), (3, 2)) if tier == "quick" else ((1, 2), (2, 2), (3, 2), (4, 2), (2, 5), (2, None), (4, None)):
@@ -133,9 +145,12 @@ def _ops(program) -> list[tuple]:
             if program.get("r2"):
                 ops += [("call", "r2", 1)]
         if program["expiration"] is not None:
-            ops += [("adv", 1.0), ("adv", 4.0)]
+            ops += [("adv", 1.0), ("adv", 4.0)] if not program.get("fine") else [("adv", program["expiration"] / 2), ("adv", program["expiration"] * 2)]
         return ops
-    if program["variant"] in ("sync", "async"):
+    if program["variant"] in ("sync", "async") and program.get("kwall"):
+        # keyword call form with ==-equal differently typed values next to the positional form
+        ops += [("kw", None, k) for k in KEYS] + [("call", None, 1)]
+    elif program["variant"] in ("sync", "async"):
         ops += [("call", None, k) for k in KEYS]
         ops += [("kw", None, 1)]
         if program["variant"] == "sync":
@@ -145,7 +160,7 @@ def _ops(program) -> list[tuple]:
     else:
         ops += [("call", r, k) for r in ("r1", "r1p", "r2") for k in (1, 1.0)]
     if program["expiration"] is not None:
-        ops += [("adv", 1.0), ("adv", 4.0)]
+        ops += [("adv", 1.0), ("adv", 4.0)] if not program.get("fine") else [("adv", program["expiration"] / 2), ("adv", program["expiration"] * 2)]
     return ops
 
 
@@ -375,7 +390,7 @@ class Run:
         from hv import xstate
 
         names = {id(r): n for n, r in self.recvs.items()}
-        horizon = (self.expiration or 0) + 1.0
+        horizon = (self.expiration or 0) + 1.0 if not self.program.get("fine") else self.expiration * 1.5
         c = xstate.Canon(names, horizon=horizon)
         current = {n for n, _t in self.entry.values()}
         c.current = current  # type: ignore[attr-defined]
@@ -387,7 +402,7 @@ class Run:
         ref = (
             tuple(repr(k) for k in self.recency),
             tuple(
-                (repr(k), None if e is None else repr(min(vtime.now() - t, e + 1.0)))
+                (repr(k), None if e is None else repr(min(vtime.now() - t, (e + 1.0) if not self.program.get("fine") else e * 1.5)))
                 for k, (_n, t) in sorted(self.entry.items(), key=repr)
             ),
         )
